@@ -1361,15 +1361,24 @@ impl RustRuleEngine {
         // Parse expression format: "left_expr operator right_value"
         // e.g., "User.Age % 3 == 0" or "User.Price * 2 > 100"
 
+        // The comparison is the LEFTMOST operator of the text: the left side is an arithmetic
+        // expression and cannot contain one, the right side can (a string literal such as
+        // "a==b"), so neither the order of this list nor the last occurrence may decide where
+        // the text is cut. At the same position the operator listed first wins (">=" over ">").
         let operators = [">=", "<=", "==", "!=", ">", "<"];
-        let mut split_pos = None;
+        let mut split_pos: Option<usize> = None;
         let mut found_op = "";
 
         for op in &operators {
-            if let Some(pos) = expr.rfind(op) {
-                split_pos = Some(pos);
-                found_op = op;
-                break;
+            if let Some(pos) = expr.find(op) {
+                let leftmost_so_far = match split_pos {
+                    Some(best) => pos < best,
+                    None => true,
+                };
+                if leftmost_so_far {
+                    split_pos = Some(pos);
+                    found_op = op;
+                }
             }
         }
 
